@@ -185,10 +185,15 @@ def o193(ctx):
     guard_ok = False
     if ploop:
         first = ploop[0].body[0]
-        if isinstance(first, ast.If):
-            t = src(first.test)
-            if any(f in t for f in flags) and (("~" in t or "not" in t) and isinstance(first.body[0], ast.Continue) or not ("~" in t or "not" in t)):
-                guard_ok = True
+        if isinstance(first, ast.If) and any(f in src(first.test) for f in flags):
+            # polarity of the test w.r.t. the flag: every `~` / `not` flips it; the chain is built in the arm that runs when the flag is set
+            neg = sum(1 for x in ast.walk(first.test) if isinstance(x, ast.UnaryOp) and isinstance(x.op, (ast.Invert, ast.Not))) % 2 == 1
+            start_arm = first.orelse if neg else first.body
+            skip_arm = first.body if neg else first.orelse
+            in_start = any(ap in list(ast.walk(s_)) for s_ in start_arm)
+            after = not start_arm and skip_arm and isinstance(skip_arm[-1], ast.Continue)  # if <flag unset>: continue ; <chain code follows>
+            skips = (not skip_arm) or isinstance(skip_arm[-1], ast.Continue) or not any(ap in list(ast.walk(s_)) for s_ in skip_arm)
+            guard_ok = (in_start or after) and skips
     if not guard_ok:
         ctx.finding(q, ploop[0] if ploop else fl, "a chain may only be started from a particle whose 'remaining' flag is still set", ploop[0] if ploop else fl, m)
     # (c) temporary re-activation paired with de-activation in the same block
